@@ -62,51 +62,61 @@ harness!(
 });
 
 harness!(
-    /// bytes / string / fixed with a 3-byte payload: length prefix (varint, write_all) then payload.
-    bytes_like, unwind = 10, {
+    /// bytes with a 3-byte payload: length prefix (varint) then payload.
+    bytes_, unwind = 10, {
     let names = no_names();
     let d: [u8; 4] = any_bytes();
-    let k = any_u8();
-    assume(k < 3);
-    match k {
-        0 => {
-            let v = Value::Bytes(vec_upto4(d, 3));
-            check_encode::<8>(&v, &Schema::Bytes, &names);
-            leak(v);
-        }
-        1 => {
-            assume(d[0] < 0x80 && d[1] < 0x80 && d[2] < 0x80);
-            let v = Value::String(String::from_utf8(vec_upto4(d, 3)).unwrap());
-            check_encode::<8>(&v, &Schema::String, &names);
-            leak(v);
-        }
-        _ => {
-            let schema = fixed("F", 3);
-            let v = Value::Fixed(3, vec_upto4(d, 3));
-            check_encode::<8>(&v, &schema, &names);
-            leak(v);
-            leak(schema);
-        }
-    }
+    let v = Value::Bytes(vec_upto4(d, 3));
+    check_encode::<8>(&v, &Schema::Bytes, &names);
+    leak(v);
+    leak(names);
+});
+
+harness!(
+    /// string with a 3-byte (ASCII) payload.
+    string_, unwind = 10, {
+    let names = no_names();
+    let d: [u8; 4] = any_bytes();
+    assume(d[0] < 0x80 && d[1] < 0x80 && d[2] < 0x80);
+    let v = Value::String(String::from_utf8(vec_upto4(d, 3)).unwrap());
+    check_encode::<8>(&v, &Schema::String, &names);
+    leak(v);
+    leak(names);
+});
+
+harness!(
+    /// fixed(3): raw payload.
+    fixed_, unwind = 10, {
+    let names = no_names();
+    let d: [u8; 4] = any_bytes();
+    let schema = fixed("F", 3);
+    let v = Value::Fixed(3, vec_upto4(d, 3));
+    check_encode::<8>(&v, &schema, &names);
+    leak(v);
+    leak(schema);
     leak(names);
 });
 
 harness!(
     /// duration (12 raw bytes) and a union [null, boolean] (index then datum).
-    duration_union, unwind = 14, {
+    duration_, unwind = 14, {
     let names = no_names();
-    if any_bool() {
-        let d = apache_avro::Duration::new(apache_avro::Months::new(any_u32()), apache_avro::Days::new(any_u32()), apache_avro::Millis::new(any_u32()));
-        let schema = Schema::Duration(fixed_schema("D", 12));
-        check_encode::<16>(&Value::Duration(d), &schema, &names);
-        leak(schema);
-    } else {
-        let schema = union(vec![Schema::Null, Schema::Boolean]);
-        let v = Value::Union(1, Box::new(Value::Boolean(any_bool())));
-        check_encode::<16>(&v, &schema, &names);
-        leak(v);
-        leak(schema);
-    }
+    let d = apache_avro::Duration::new(apache_avro::Months::new(any_u32()), apache_avro::Days::new(any_u32()), apache_avro::Millis::new(any_u32()));
+    let schema = Schema::Duration(fixed_schema("D", 12));
+    check_encode::<16>(&Value::Duration(d), &schema, &names);
+    leak(schema);
+    leak(names);
+});
+
+harness!(
+    /// union [null, boolean], branch 1: index then datum.
+    union_, unwind = 10, {
+    let names = no_names();
+    let schema = union(vec![Schema::Null, Schema::Boolean]);
+    let v = Value::Union(1, Box::new(Value::Boolean(any_bool())));
+    check_encode::<16>(&v, &schema, &names);
+    leak(v);
+    leak(schema);
     leak(names);
 });
 
@@ -124,7 +134,10 @@ harness!(
 
 pub const HARNESSES: &[(&str, fn())] = &[
     ("c13::scalars", scalars::body),
-    ("c13::bytes_like", bytes_like::body),
-    ("c13::duration_union", duration_union::body),
+    ("c13::bytes_", bytes_::body),
+    ("c13::string_", string_::body),
+    ("c13::fixed_", fixed_::body),
+    ("c13::duration_", duration_::body),
+    ("c13::union_", union_::body),
     ("c13::array_", array_::body),
 ];
